@@ -157,7 +157,7 @@ def run_cubes(modname: str, tier: str, spec: CheckSpec, seed: int, nproc: int, b
             i = pending.pop(0)
             if budget > 0:
                 left = max(0.0, budget - (time.time() - t_start))
-                share = max(5.0, left * nproc / (len(pending) + 1))
+                share = max(5.0, min(left, left * nproc / (len(pending) + 1)))  # one cube = one core: never more than the wall time left
                 if share < spec.cubes[i].timeout:
                     spec.cubes[i] = dataclasses.replace(spec.cubes[i], timeout=round(share, 1))
                     spec.cubes[i].budget_cut = True
